@@ -5,6 +5,7 @@ package main
 import (
 	"bytes"
 	"fmt"
+	"regexp"
 	"strconv"
 	"strings"
 )
@@ -79,7 +80,13 @@ func init() {
 					if !res.HijackRan {
 						return Verdict{VSpec, "hijack-handler-not-run", desc}
 					}
-					if !bytes.Equal(res.HijackRead, E) {
+					wantRead := E
+					if m := regexp.MustCompile(`hjk=(\d+)`).FindStringSubmatch(opts); m != nil && !cfg.KeepHijacked {
+						// the handler reads only k bytes and returns; the connection is not kept, so the server closes it
+						k, _ := strconv.Atoi(m[1])
+						wantRead = E[:min(k, len(E))]
+					}
+					if !bytes.Equal(res.HijackRead, wantRead) {
 						return Verdict{VSpec, "hijack-bytes-differ", desc}
 					}
 					codes, _ := wireResponses(res.Trace.Out)
